@@ -30,7 +30,8 @@ Candidates(name, scope) ==
   IN  ro \o << <<sib>> \o name,                        \* same name in a sibling/unrelated namespace
               scope \o name \o <<x>>,                   \* the name as a proper prefix
               <<x>> \o scope \o name,                   \* chain candidate shifted into another namespace
-              scope \o <<x>> \o name >>                 \* deeper than the calling scope
+              IF Len(name) > 1 THEN Tail(name) ELSE scope \o <<x>> \o name >>   \* a declaration that is a proper tail of the
+                                                                                  \* searched name / deeper than the calling scope
 
 VARIABLES name, scope, sel, rot, str, lst
 vars == <<name, scope, sel, rot, str, lst>>
